@@ -79,7 +79,9 @@ def _run_case(case, wd, stem, via_file, via_gp, ff):
                 return "gen_params -dsdna raised %s" % g["exc"], g, text
             exp = u.norm_expected(case["g"])
             why = u.diff(g["g"], exp)
-            if not why and g["itp"] != [[i + 1, nm] for i, nm in enumerate(exp["name"])]:
+            if not why and g["itp"] is None:
+                why = "raised %s after the residue graph was built" % g["after"]
+            elif not why and g["itp"] != [[i + 1, nm] for i, nm in enumerate(exp["name"])]:
                 why = "residues of the .itp are %s" % (g["itp"][:10],)
             if why:
                 return "gen_params -dsdna: " + why, g, text
@@ -165,8 +167,11 @@ def record(inps):
 
 def validate_batches(ck, traces, name, size=150):
     nbad = 0
-    for b, part in enumerate(c.chunks(traces, max(1, (len(traces) + size - 1) // size))):
-        res, rejected = u.validate(part, "%s_%d" % (name, b), prop=PROP)
+    parts = c.chunks(traces, max(1, (len(traces) + size - 1) // size))
+    from concurrent.futures import ThreadPoolExecutor
+    with ThreadPoolExecutor(max(1, min(4, c.NPROC // 2))) as ex:
+        results = list(ex.map(lambda bp: u.validate(bp[1], "%s_%d" % (name, bp[0]), prop=PROP), enumerate(parts)))
+    for part, (res, rejected) in zip(parts, results):
         ck.add_tlc(res)
         ck.traces += len(part) - len(rejected)
         for tid, matched in sorted(rejected.items()):
@@ -251,7 +256,6 @@ def run(tier):
 def replay(path):
     doc = json.loads(open(path).read())
     case = doc["case"]
-    ck = c.Check(PROP, "quick")
     if case["kind"].startswith("S->I"):
         wd = c.workdir(PROP, "replay_one")
         ff = wd / "universe.ff"
